@@ -13,11 +13,3 @@ Proof.
   inversion HF; subst. apply IH; auto. now apply s_valid_inv.
 Qed.
 
-Definition cnn_run_fixed st c (a : cnn_arch) (ops : list cnn_op) : cnn_arch :=
-  fold_left (fun a '(m, r1, r2) => arch_of (cnn_step_fixed st c a m r1 r2)) ops a.
-Theorem cnn_valid_chain_fixed st c : 1 <= c_min_layers c -> 1 <= c_min_ch c -> forall ops a,
-  Forall (fun o : cnn_op => cnn_meth_ok (fst (fst o))) ops -> cnn_ok st a -> cnn_ok st (cnn_run_fixed st c a ops).
-Proof.
-  intros Hl Hc. induction ops as [|[[m r1] r2] ops IH]; intros a HF HV; cbn; auto.
-  inversion HF; subst. apply IH; auto. now apply cnn_valid_inv_fixed.
-Qed.
